@@ -51,7 +51,7 @@ def run(facts, rep, tier):
             rep.add(Finding("R02.2", "a line with %d hex digits is taken as a frame" % r.ctx["digits"],
                             "get_message on a line with %d hex digits returns %r (must be None)" % (r.ctx["digits"], g), None))
         for w in getattr(r, "warnings", []):
-            if w[0] in ("unmodelled", "line-use"):
+            if w[0] in ("line-use",):
                 rep.add(Finding("R02.1", "line used via %s" % w[1], "the input line is used through %s, which is not a digit projection" % w[1], None))
     good = [r for r in results if r.ctx.get("via_line") and r.ctx.get("digits", r.ctx["L"]) in (14, 28, 26, 40) and "mismatch" not in r.ctx["tags"]]
     for r in good:
@@ -84,7 +84,7 @@ def run(facts, rep, tier):
             rep.add(Finding("R02.2", "%d-digit line (DF%s): %s" % (r.ctx.get("digits", L), df, why.split(":")[0]),
                             "context '%s': %s" % (r.ctx["label"], why), None))
         for w in r.warnings:
-            if w[0] in ("unmodelled", "line-use") and ("str" in w[1] or "line" in w[1] or "char" in w[1]):
+            if w[0] in ("line-use",):
                 rep.add(Finding("R02.1", "line used via %s" % w[1], "the input line is used through %s, which is not a digit projection" % w[1], None))
     rep.instances("R02.2", n2, floor=100, what="digit counts 0..64 + accepted forms")
     rep.sample({"rule": "R02.2", "rejected_counts": [r.ctx["digits"] for r in sel(results, "K1", "badlen")][:10], "accepted": [14, 28, 26, 40]})
